@@ -14,7 +14,8 @@ def oracle(ctx):
     n = (600 if ctx["tier"] == "quick" else 3000) * ctx["boost"]
     sz = {"size": 40 if ctx["tier"] == "quick" else 3 * 40}
     return cm.merge_results(cm.run_cases(fw.c14_case, ctx["seed"], ID, n, sz),
-                            cm.run_cases(fw.c14_hexital_case, ctx["seed"], ID + "hx", n // 2, sz))
+                            cm.run_cases(fw.c14_hexital_case, ctx["seed"], ID + "hx", n // 2, sz),
+                            cm.run_cases(fw.c14_converge_case, ctx["seed"], ID + "cv", n // 2, sz))
 
 
 replay = fw.c14_any_replay
